@@ -33,6 +33,7 @@ func TestC02(t *testing.T) {
 	ctx := context.Background()
 	cases, failures := 0, 0
 	knownHits, knownWhat := 0, ""
+	excluded := 0
 	fail := func(f string, a ...any) {
 		failures++
 		if failures <= 12 {
@@ -146,6 +147,10 @@ func TestC02(t *testing.T) {
 			}
 		}
 		// YAML, whole pipeline
+		if jt, err := jsonToTree(j); err == nil && hasExcludedString(jt) {
+			excluded++
+			continue
+		}
 		if hasMergeString(d.want) {
 			if what, ok := knownOpen("C02", "yaml-merge-string"); ok {
 				knownHits++
@@ -168,5 +173,5 @@ func TestC02(t *testing.T) {
 	if knownHits > 0 {
 		fmt.Printf("KNOWN-FINDING: property=C02 %s (%d generated documents skipped on the YAML leg)\n", knownWhat, knownHits)
 	}
-	fmt.Printf("BOUNDED name=c02-signed-roundtrip cases=%d failures=%d\n", cases, failures)
+	fmt.Printf("BOUNDED name=c02-signed-roundtrip cases=%d failures=%d yaml_leg_excluded=%d\n", cases, failures, excluded)
 }
